@@ -22,6 +22,7 @@ HOOK_COMMITS = ["0d1b28c", "7f73fb6"]
 
 NOT_APPLICABLE = {
     "C04": "quantifies over safe *programs* and the oracle is rustc's accept/reject verdict (borrow/const checking); Verus and Kani both run after type checking with lifetimes erased, so no contract on a function of /repo can express it (DESIGN.md §4)",
+    "C09": "not reached within budget by this family: every string harness (symbolic UTF-8 text of <= 2 chars over a fixed buffer against std::string::String: pop/truncate/remove/split_off/non-boundary panics) exceeded CBMC's 10-minute limit because of the chars()/UTF-8 decoding loops, and Verus cannot reason about str bytes; the harnesses are kept in kani/incrate/h_coll.rs but are not registered (DESIGN.md section 4)",
     "C19": "quantifies over thread schedules; Kani has no thread support and Verus would need bump_pool.rs rewritten over its own Mutex/permission types, i.e. a model rather than the code (DESIGN.md §4)",
 }
 
@@ -111,6 +112,34 @@ PROPS = {
         claim="Proved: align_pos yields the least/greatest multiple in bump direction, moves by < N, stays inside a range whose far end is 16-aligned, is idempotent and implies the weaker alignments. Kani (bounded K<=2): align_to moves only the current position accordingly; inside aligned/scoped_aligned the position is a multiple of N at entry and after each allocation; after aligned it is a multiple of the outer MIN_ALIGN; after scoped_aligned exactly the entry position; earlier data intact.",
         note="(outer,inner) pairs instantiated: see evidence; with_settings/borrow_mut_with_settings panics are not instantiated.",
         not_covered=["with_settings / borrow_mut_with_settings conversions and their panics", "unwinding out of a region", "all 25 (outer,inner) pairs (5 instantiated)"],
+    ),
+    "C17": dict(
+        level="other",
+        technique="Verus lemmas (hint independence of bump_up/bump_down, proved for all inputs) + relational Kani obligations: each entry point against RawBump::alloc with the layout it stands for, from the same arbitrary state",
+        claim="Hint independence (the typed fast paths compute the same block and position as the generic layout path) is proved for all inputs by Verus (c11_up_hints / c11_down_hints). Kani then shows for 15 entry points (alloc_sized, alloc_slice, alloc_slice_for, allocator_impl::allocate, Allocator::allocate through BumpScope / &BumpScope / WithoutDealloc / nested wrappers / dyn BumpAllocatorCore, try_allocate_layout / try_allocate_sized typed and dyn, try_alloc, the panicking alloc, try_alloc_slice_copy) that from the same state they give the same success, address, new position and current chunk as the layout path, and equal stored values. Bounded (one 112-byte chunk, small layouts).",
+        note="Entry-point pairs not in the list (Bump vs BumpScope inherent methods generated by forward_methods!, MutBump* traits, the remaining try_/panicking twins) are not covered. Bump is repr(transparent)-compatible with BumpScope but that cast is not exercised here.",
+        not_covered=["forward_methods! inherent methods of Bump/BumpScope", "collections' entry points", "pairs not listed in the evidence samples"],
+    ),
+    "C16": dict(
+        level="other",
+        technique="per-operation partition contracts on BumpBox<[T]>::{split_at,split_first,split_last,split_off_first,split_off_last,merge} and FixedBumpVec::split_at_spare checked by Kani; independence of the parts = the sub-block preconditions of the C01/C02/C13 realloc/deallocate contracts",
+        claim="split_at / split_first / split_last / split_off_first / split_off_last / split_at_spare on a symbolic slice or fixed vector (len<=4, cap 5): parts adjacent and in order, lengths (and capacity) add up, every element in its place, None only when empty; merge of adjacent parts restores the whole (address, length, elements) and merge of non-adjacent parts never returns. Independence of parts afterwards is an instance of the C01/C02/C13 contracts, which are proved (bounded) for ANY sub-block of the allocated region, not only for blocks an allocation call returned.",
+        note="split_off (range, rotates elements), partition, into_flattened, map_in_place and the String/Vec split_off variants are NOT under contract: CBMC did not finish slice::rotate_* within 10 minutes even for len 3 (measured); FixedBumpVec::split_off capacity arithmetic likewise.",
+        not_covered=["split_off (all types), partition, into_flattened, map_in_place", "zero-sized elements", "follow-up operation sequences beyond the sub-block argument"],
+    ),
+    "C08": dict(
+        level="other",
+        technique="per-operation refinement contracts against std::vec::Vec from an arbitrary symbolic vector state (fixed buffer), checked by Kani",
+        claim="BumpBox<[T]> (remove, swap_remove, pop, truncate, clear, retain, dedup, drain from both ends) and FixedBumpVec (try_push, try_insert, try_extend_from_slice_copy, try_resize, capacity, is_full) return the same values and leave the same contents/length as std::vec::Vec for every symbolic state with len<=4, capacity 5 and every in-range argument; capacity >= len; fixed vectors never change address/capacity and report an error when full keeping their contents; ZST capacity is usize::MAX. Because the precondition is 'any state', not 'a state built by the harness', this extends to operation sequences by induction.",
+        note="Bounded len<=4/cap 5, element type u8. BumpVec, MutBumpVec, MutBumpVecRev (growth paths), splice, extract_if, map, into_flattened, out-of-range panics are NOT covered.",
+        not_covered=["BumpVec / MutBumpVec / MutBumpVecRev and their growth / capacity promises", "splice, extract_if, map(_in_place), extend_from_within, append, shrink_to_fit, into_* conversions", "panics on out-of-range arguments"],
+    ),
+    "C06": dict(
+        level="other",
+        technique="drop-counting element type whose Drop asserts 'never twice'; per-operation contracts on BumpBox<[T]> and its iterators, checked by Kani for panic-free executions",
+        claim="For clear, truncate, remove, swap_remove, pop, retain, drain (partially consumed), into_iter (consumed from both ends, then dropped) on a symbolic BumpBox<[Tok]> (len<=3): after the operation and after dropping every owner each element has been dropped exactly once, a removed value is not dropped before the caller drops it, and leak / into_raw drop nothing.",
+        note="Panic-free executions only: neither verifier has unwinding semantics, so every clause about a callback that panics mid-operation is out of reach. FixedBumpVec/BumpVec/MutBumpVec(Rev) wrappers, splice, extract_if, map_in_place, dedup, split_off, append, resize are not covered.",
+        not_covered=["every panic-injection clause", "growable vectors and their iterators; splice, extract_if, map, dedup, split_off, append, resize, extend", "zero-sized element types"],
     ),
 }
 
